@@ -159,6 +159,38 @@ def r3_per_config(rep, tier):
     rep.cur_config = None
 
 
+def r5b_single_entry_enum(rep):
+    """an externally tagged enum is read from a table of exactly one entry: with more entries `the first one` is whichever the map's order puts first"""
+    R = rep.rule('C18/R5b', 'a table is accepted as an enum only when it has exactly one entry (evaluated: 0, 2 and 3 entries are refused before the variant access is built, '
+                 '1 entry reaches visit_enum), in toml::Value and in toml_edit\'s table deserializer alike: otherwise the variant chosen for a table with several entries '
+                 'would be the first in iteration order, which preserve_order changes', floor=8)
+    from .den import RecInterp, Evaluator, Unanalysable, EvalPanic
+    f = Facts('default')
+    cases = [("<toml::value::Value as serde::de::Deserializer<'de>>::deserialize_enum", lambda kids: ('ctor', 'toml::value::Value::Table', (kids,))),
+             ("<toml_edit::de::table::TableDeserializer as serde::de::Deserializer<'de>>::deserialize_enum",
+              lambda kids: ('struct', 'toml_edit::de::table::TableDeserializer', {'items': kids, 'span': ('opaque',)}))]
+    for d, mk in cases:
+        if not f.has_body(d):
+            rep.incomplete(R, d, 'not found')
+            continue
+        b = f.body(d)
+        pn = [p_['name'] for p_ in b['params'] if p_.get('k') == 'p_bind']
+        for n in (0, 1, 2, 3):
+            kids = tuple((('key', i), ('elem', i)) for i in range(n))
+            it = RecInterp(Evaluator(f), {'visit_enum'}, {'custom', 'invalid_type', 'invalid_length'})
+            env = {pn[0]: mk(kids), '@assign': {}}
+            for e in pn[1:]:
+                env[e] = ('opaque',)
+            try:
+                it.val(b['body'], env)
+            except (Unanalysable, EvalPanic) as ex:
+                rep.incomplete(R, f'{d}|{n}', f'cannot evaluate: {ex}', f.loc(b))
+                continue
+            reached = any(nm == 'visit_enum' for nm, _ in it.calls)
+            rep.check(R, f'{d}|{n}', reached == (n == 1), 'visit_enum' if reached else 'refused', f'`{d}` {"accepts" if reached else "refuses"} a table of {n} entries as an enum'
+                      + (': the variant is then the first entry in map order (sorted by default, insertion order under preserve_order), the other entries are ignored' if reached else ''), f.loc(b))
+
+
 def r5_order_sensitive(rep):
     """results must not depend on the iteration order of toml::Map, which is the one thing preserve_order changes"""
     R = rep.rule('C18/R5', 'no position-sensitive consumption of a toml::Map iteration in library code: `enumerate` / `zip` / `nth` / `position` / `last` / '
@@ -241,6 +273,7 @@ def run(tier):
         r3_per_config(rep, tier)
         r4_unbounded(rep)
         r5_order_sensitive(rep)
+        r5b_single_entry_enum(rep)
     except AnalysisIncomplete as e:
         rep.incomplete('C18/analysis', 'rules', str(e))
     except Exception:
